@@ -115,24 +115,27 @@ def pattern_matches(test, pats):
     return False
 
 
-def run_stmts(stmts, cur, nxt, shapes):
+def run_stmts(stmts, cur, nxt, shapes, only=None):
+    """only: optional predicate on assign statements (used for modules whose control flow drives several domains:
+    each domain sees the same block structure but only its own assignments)"""
     for st in stmts:
         k = st[0]
         if k == "assign":
-            write(st[1], R.ev(st[2], cur)[0], cur, nxt, shapes)
+            if only is None or only(st):
+                write(st[1], R.ev(st[2], cur)[0], cur, nxt, shapes)
         elif k == "if":
             for cond, body in st[1]:
                 if R.ev(cond, cur)[0] != 0:
-                    run_stmts(body, cur, nxt, shapes)
+                    run_stmts(body, cur, nxt, shapes, only)
                     break
             else:
                 if st[2] is not None:
-                    run_stmts(st[2], cur, nxt, shapes)
+                    run_stmts(st[2], cur, nxt, shapes, only)
         elif k == "switch":
             test = R.ev(st[1], cur)
             for pats, body in st[2]:
                 if pattern_matches(test, pats):
-                    run_stmts(body, cur, nxt, shapes)
+                    run_stmts(body, cur, nxt, shapes, only)
                     break
         else:
             raise ValueError(st)
